@@ -405,7 +405,7 @@ theorem msgSwapOut_honours (rate : Dec) (sender : Addr) (prov : Option Addr) (r 
       obtain ⟨e1, e2, e3⟩ := hk
       subst e1 e2 e3
       have hq : queryOut M rate prov.isSome r a w = .ok (rr1, fee1, rr1.tin.amount) := by
-        unfold queryOut; rw [h1]; rfl
+        unfold queryOut; simp only [hv, Bool.not_true, Bool.false_eq_true, if_false, ha]; rw [h1]; rfl
       unfold keeperCalcOut at h1
       obtain ⟨⟨gross, fee2⟩, hf, h1⟩ := bind_ok h1
       obtain ⟨rr2, hc, h1⟩ := bind_ok h1
@@ -746,7 +746,7 @@ theorem quote_eq_execute_partial (rate : Dec) (prov : Option Addr) (r : Route) (
       obtain ⟨_, q⟩ := inspectIn_quote M sender hs hc r a w res rr2 w2 h2 hnd
       have hq := q w (fun _ _ => rfl)
       refine ⟨⟨rr2, (feeIn prov.isSome rate rr2.tout.amount).2, rr2.tout.amount - (feeIn prov.isSome rate rr2.tout.amount).2⟩, ?_, rfl, rfl, rfl⟩
-      simp [queryIn, calcRouteIn, hq, Res.bind]
+      simp [queryIn, calcRouteIn, hq, Res.bind, hv, ha]
 
 end quote
 
